@@ -11,6 +11,7 @@ SPIN = ["PUSO", "QUSO", "PCSO", "PUSOMatrix", "QUSOMatrix"]
 
 BK = ["self._degree", "self._variables", "self._num_binary_variables"]
 BK_BO = BK + ["self._mapping", "self._reverse_mapping", "self._next_label"]
+STORE_BK = ["self.<store>"] + BK_BO       # the terms and the variable bookkeeping, nothing else of the object
 
 # ---------------------------------------------------------------------------------- key validity / canonical keys
 # Leaves on the Matrix side test `isinstance(k, int) and k >= 0` per label: labels are abstract in qvc, so the
@@ -113,7 +114,7 @@ for op, sign in (("__iadd__", "+"), ("__isub__", "-")):
              instances=[{"self": "model:" + c, "other": o} for c in ALL for o in _others(c)],
              requires=["wf(self)", "isnumber(other) or keysvalid(self, other)",
                        "isnumber(other) or distinct(self, other)"],
-             returns="param:self", modifies=["self"],
+             returns="param:self", modifies=STORE_BK,
              ensures=["den(self) == old(den(self)) %s (other if isnumber(other) else den_as(self, other))" % sign,
                       "wf(self)", "result is self"],
              loops={1: {"invariant": "den(self) == old(den(self)) %s den_as(self, visited) and wf(self)" % sign}})
@@ -123,7 +124,7 @@ contract("qubovert.utils._dict_arithmetic:DictArithmetic.__imul__", props=["C05"
                    [{"self": "model:" + c, "other": "real"} for c in ("QUBO", "QUSO", "QUBOMatrix", "QUSOMatrix")],
          requires=["wf(self)", "isnumber(other) or keysvalid(self, other)",
                    "isnumber(other) or distinct(self, other)"],
-         returns="param:self", modifies=["self"],
+         returns="param:self", modifies=STORE_BK,
          ensures=["den(self) == old(den(self)) * (other if isnumber(other) else den_as(self, other))",
                   "wf(self)", "result is self"],
          loops={1: {"invariant": "den(self) == den_as(self, visited) * den_as(self, other) and wf(self)"},
@@ -136,7 +137,7 @@ contract("qubovert.utils._dict_arithmetic:DictArithmetic.__imul__", props=["C05"
 contract("qubovert.utils._dict_arithmetic:DictArithmetic.__itruediv__", props=["C05"],
          instances=[{"self": "model:" + c, "other": "real"} for c in ALL],
          requires=["wf(self)", "other != 0"],
-         returns="param:self", modifies=["self"],
+         returns="param:self", modifies=STORE_BK,
          ensures=["den(self) * other == old(den(self))", "wf(self)", "result is self"],
          loops={1: {"invariant": "den(self) * other == den_as(self, coll) * other + (1 - other) * den_as(self, visited) and wf(self) and "
                                  "forall_key(lambda q: implies(not has(visited, q), has(self, q) == has(coll, q) and "
@@ -146,7 +147,7 @@ contract("qubovert.utils._dict_arithmetic:DictArithmetic.__ipow__", props=["C05"
          instances=[{"self": "model:" + c, "exponent": "const:%d" % e} for c in PTYPES for e in (1, 2, 3)] +
                    [{"self": "model:" + c, "exponent": "const:1"} for c in ("QUBO", "QUSO", "QUBOMatrix", "QUSOMatrix")],
          requires=["wf(self)"],
-         returns="param:self", modifies=["self"],
+         returns="param:self", modifies=STORE_BK,
          ensures=["den(self) == old(den(self)) ** exponent", "wf(self)", "result is self"],
          note="exponents 1..3 (concretely unrolled); symbolic exponents are left to the bounded stand-in")
 contract("qubovert.utils._dict_arithmetic:DictArithmetic.__ipow__#err", props=["C05"], trusted=True,
